@@ -110,7 +110,7 @@ Definition put_store (c : corr) (now : Q) (m : smsg) (eid : Z) : corr :=
   let c1 := with_store c (dset (c_store c) (sm_seq m) {| e_at := now; e_msg := m; e_id := eid |}) in
   if is_submit m then
     let '(ref, sseq, total) := sm_sar m in
-    if 0 <? total then
+    if (0 <? total) && (total <=? 255) then       (* sar_total_segments is a single octet: anything larger is not segmentation data *)
       let fresh := {| ss_status := map (fun i => (Z.of_nat i, STATUS_SENDING)) (seq 1 (Z.to_nat total));
                       ss_orig := m; ss_last_resp := None; ss_last_rcpt := None |} in
       (* a later segment joins the status of the message being sent under its reference; the first segment starts a new one *)
